@@ -90,6 +90,24 @@ def rule_G9(ck):
                     continue
             if isinstance(a, ast.Name) and isinstance(b, ast.Name):
                 ck.instance(("span", ) + key, {"site": q, "span": f"({a.id}, {b.id})"} if len(ck.current.samples) < 4 else None, fn=q)
+                # a position that is only ever bound inside ANOTHER loop (its target, or an unpacking in its body) is whatever that
+                # loop's last iteration left behind: the diagnostic points at the last item, not at the one it is about
+                stale = None
+                here = enclosing_loops(site, fn)
+                for nm in (a.id, b.id):
+                    binds = [n_ for n_ in ast.walk(fn) if (isinstance(n_, ast.For) and any(isinstance(x, ast.Name) and x.id == nm for x in ast.walk(n_.target)))
+                             or (isinstance(n_, ast.Assign) and any(isinstance(x, ast.Name) and x.id == nm and isinstance(x.ctx, ast.Store) for t_ in n_.targets for x in ast.walk(t_)))]
+                    if nm in params or not binds:
+                        continue
+                    def home(n_):
+                        return n_ if isinstance(n_, ast.For) else (enclosing_loops(n_, fn) or [None])[0]
+                    homes = [home(n_) for n_ in binds]
+                    if all(h is not None and not any(h is l for l in here) for h in homes) and site.lineno > max(h.end_lineno for h in homes):
+                        stale = nm
+                if stale:
+                    ck.violation(t, f"span ({a.id}, {b.id}): '{stale}' is bound only inside an earlier loop, and the report is made after that loop has ended (in another loop): it holds what the LAST iteration left, "
+                                    "so the diagnostic points at the last item instead of the one it is about", construct=f"span ({a.id}, {b.id}) stale loop variable")
+                    continue
 
                 def last_def(name):
                     ds = [d for d in snaps.get(name, []) if d.lineno <= site.lineno]
